@@ -162,7 +162,7 @@ func machine(p machineParams) func(t *rapid.T, c *ev.Case) {
 				return
 			}
 			o := op{Op: "search", Mst: pickMst(t), Pred: pg.pred(t), Keys: pickKeys(t)}
-			if regexOverSeparatorBytes(o.Pred, r.m, o.Mst) {
+			if !noExclusions && regexOverSeparatorBytes(o.Pred, r.m, o.Mst) {
 				// known finding: regular expressions are matched against the ESCAPED stored form of values
 				// holding the bytes 0x00-0x02
 				c.Excluded("regex_over_values_with_bytes_0_1_2")
